@@ -527,7 +527,7 @@ func (x *c35Exec) uni(data []byte, o *vu.Out) string {
 	if res == "panic" {
 		sig := ""
 		if st.stream == nil {
-			sig = "overrun-nil-stream-panic"
+			sig = "" // formerly the known finding overrun-nil-stream-panic (repaired upstream)
 		}
 		o.Fail(sig, fmt.Sprintf("handleUnidirectionalStream panicked on stream bytes %x", data))
 		return "ok panic"
@@ -597,7 +597,7 @@ func (x *c35Exec) req(k int, data []byte, o *vu.Out) string {
 	if res == "panic" {
 		sig := ""
 		if st.stream == nil {
-			sig = "overrun-nil-stream-panic"
+			sig = "" // formerly the known finding overrun-nil-stream-panic (repaired upstream)
 			// confirm on the real server path: serverConn.handleRequestStream on the same bytes
 			// (only possible when the overrun happens in the leading HEADERS frame; later ones need a
 			// complete valid request and a running HTTP handler)
